@@ -107,10 +107,11 @@ CLAIMED["C17"] = ("other", "Mixed: (proof) the control structure of parse_versio
                   "wildcards, ~=, '||', '<empty>') and near-miss strings against packaging.SpecifierSet.", "5 C17", "A-PKG (SpecifierSet raises or yields clauses), A-STDLIB str ops; that the leaf translation never raises on a "
                   "clause packaging accepts is per-operator (C04 leaf obligations) + bounded", "contract-based deductive verification of the parser's control structure (abstract texts, reduce invariant, z3) + bounded grammar sweep")
 CLAIMED["C18"] = ("other", "Mixed: (proof) parse_wheel_tags on every file name (as the '-'-join of dash-free fields): accepted exactly when it ends in '.whl' and has 5 or 6 fields, the three tag lists are the '.'-splits of the "
-                  "lower-cased last three fields with the extension removed (optional build tag skipped by counting from the end), the only exception is InvalidWheelFilename; (bounded) the same names against "
+                  "lower-cased last three fields with the extension removed (optional build tag skipped by counting from the end), the only exception is InvalidWheelFilename; Platform.parse on every name of the real Platform.choices(), X_Y being any two integers: the documented target (family, version, architecture) "
+                  "and Platform.parse(str(p)) == p; (bounded) the same names against "
                   "packaging.utils.parse_wheel_filename over the PEP 427 grammar (separators, '.whl' and tag-like words inside fields), wheel_compatibility() never raising on them, every Platform.choices() name "
-                  "with X_Y over a version grid parsing, aliases, Platform.parse(str(p)) == p.", "5 C18", "A-STDLIB str methods on joins (stated in pyvc/theories/wheel.py); Platform.parse and friends bounded only",
-                  "contract-based deductive verification of parse_wheel_tags (T-WHEEL, z3 strings) + bounded comparison with packaging and platform-name sweep")
+                  "with X_Y over a version grid parsing, aliases, Platform.parse(str(p)) == p.", "5 C18", "A-STDLIB str methods on joins (pyvc/theories/wheel.py); A-REGEX for the platform pattern (two samples through the real re); alias table transcribed from the documentation",
+                  "contract-based deductive verification of parse_wheel_tags (T-WHEEL, z3 strings) and Platform.parse/__str__ (T-TAG) + bounded comparison with packaging and platform-name sweep")
 NA_REASON = "check not built yet in this session (work in progress; see DESIGN.md section 5)"
 ALL = ["C%02d" % i for i in range(1, 20)]
 m = {"version": 1, "setup_cmd": "python3-vt check.py --setup",
